@@ -8,7 +8,7 @@ def o(s):
     return [ord(c) for c in s]
 
 
-CAPITALISABLE = ["one", "two", "three", "kettő", "ábc", "ice-cream", "o'neil", "zebra", "łódź", "ñu", "polish", "größe", "x-ray-gun", "mcdonald"]
+CAPITALISABLE = ["one", "two", "three", "kettő", "ábc", "ice-cream", "o'neil", "zebra", "łódź", "ñu", "polish", "größe", "x-ray-gun", "mcdonald", "'tis", ".net", "#tag", "(sic)"]
 UNCAP = ["4x", "Polish", "漢字", "-dash", "Łódź", "USA", "7"]
 SCHEMES = ["none", "first", "all", "random", "one"]
 
@@ -19,6 +19,7 @@ def sep_variants(rng, uniform_only=False):
          dict(sep="recipe", sepChar=[], sepRecipe=dict(len=1, allow=0, require=0, exclude=0, allowChars=o("¡.;"), requireSets=[], excludeChars=[])),
          dict(sep="recipe", sepChar=[], sepRecipe=dict(len=2, allow=0, require=0, exclude=0, allowChars=o("ab"), requireSets=[], excludeChars=[])),
          dict(sep="recipe", sepChar=[], sepRecipe=dict(len=1, allow=0, require=0, exclude=0, allowChars=o("xx"), requireSets=[], excludeChars=[]))]
+    v += [dict(sep="customlist", sepChar=[], sepVals=[[], o("-"), o("."), o("_")]), dict(sep="customlist", sepChar=[], sepVals=[o("·"), [], o("ab")])]
     v += [dict(sep="custom0", sepChar=[], sepRecipe=dict(len=1, allow=0, require=0, exclude=0, allowChars=o("xy"), requireSets=[], excludeChars=[]))]
     if not uniform_only:
         v += [dict(sep="recipe", sepChar=[], sepRecipe=dict(len=2, allow=0, require=0, exclude=0, allowChars=o("a"), requireSets=[o("1")], excludeChars=[])),
@@ -33,6 +34,8 @@ def sep_variants(rng, uniform_only=False):
 
 
 def sep_count(sv):
+    if sv["sep"] == "customlist":
+        return len(sv["sepVals"])
     if sv["sep"] not in ("recipe", "custom0"):
         return 1
     r = sv["sepRecipe"]
@@ -58,7 +61,7 @@ def tree_scen(rng, uniform_only=False, uncap_prob=0.0, budget=5000):
     for _ in range(100):
         n = rng.choice([2, 3, 3, 5, 4, 6, 7])
         L = rng.choice([1, 2, 2, 3])
-        cap = rng.choice(SCHEMES + ["bogus"])
+        cap = rng.choice(SCHEMES + SCHEMES + ["bogus", "First", "ALL", " one", "Random", "none "])
         sv = rng.choice(sep_variants(rng, uniform_only))
         uc = 1 if rng.random() < uncap_prob else 0
         capf = {"random": 2 ** L, "one": L}.get(cap, 1)
@@ -186,6 +189,11 @@ def c13_part(ctx, rng, quick):
                              failRateOne=0, mode="paths", paths=3, maxLeaves=0, tag="no-list", reps=0))
         scen.append(dict(kind="wl", wl=dict(words=[o("one"), o("two"), o("three")], nolist=0, len=L, cap=rng.choice(SCHEMES), sep="SFDigits1", sepChar=[]),
                          maxTrials=0, failRateOne=0, mode="paths", paths=3, maxLeaves=0, tag="lengths", reps=0))
+    for cap in SCHEMES + ["bogus"]:
+        for L in (0, -1, -7):
+            for nolist in (0, 1):
+                scen.append(dict(kind="wl", wl=dict(words=[o("one"), o("two")] if nolist == 0 else [], nolist=nolist, len=L, cap=cap, sep="char", sepChar=o("-")),
+                                 maxTrials=0, failRateOne=0, mode="paths", paths=2, maxLeaves=0, tag="non-positive-length", reps=0))
     for sv in sep_variants(rng)[4:]:
         for mt, fr in ((0, 0), (2, 1)):
             wl = dict(words=[o("one"), o("two"), o("three")], nolist=0, len=3, cap="one")
